@@ -373,6 +373,9 @@ func checkOptionReadSites(r *Run, prog *Program, a *Anchors, pfx string) {
 			if strings.HasPrefix(fa.Fn.Name(), "With") || (fa.Fn.Parent() != nil && strings.HasPrefix(fa.Fn.Parent().Name(), "With")) {
 				okR = true
 			}
+			if !okR && ctor == "WithLocalVariable" && fa.Fn == a.CollEval && len(a.CollEval.Params) > 0 && types.Identical(a.CollEval.Params[len(a.CollEval.Params)-1].Type(), ot) {
+				okR = true // the fold copies the enclosing bindings into the option set of the body (what it does with them: c06.fold)
+			}
 			if !okR {
 				// … whatever form it has: a function that runs while the option is applied
 				if applied[ctor] == nil {
